@@ -81,5 +81,4 @@ theorem calcBatch_matchedLen_count (a : Auction) (bids : List Bid) (allowed : Li
     simp only [matchInfo]
     rw [this]
 
-#print axioms Fundraising.calcBatch_matchedLen_count
 end Fundraising
